@@ -543,6 +543,7 @@ def run(chk, prog, tier):
                         'out-of-bounds accesses inside the base64 loops and undefined behaviour in general are NOT decided (would need relational '
                         'loop invariants); the table-lookup index guard and the buffer size macros are decided by C11',
                         'leaks inside the crypto libraries are outside the analysis']
+    H.require_reached(H.VERIFY_PRIMS + H.HMAC_PRIMS, 'C06')
     return chk.finish(
         'Structural clauses of memory safety and rejection for every token string: nullness, uninitialised-local, ownership (leak / wrong '
         'family / double release / use after release) typestate rules on all paths of jwt_checker_verify through both providers with the '
